@@ -134,6 +134,7 @@ def evaluate(case, stt):
     c = gen_ssb.case_from_compiled(comp, case["gaps"])
     if c is None:
         return fails
+    c["caller_style"] = sum(case["gaps"]) % 2 == 1  # (the application's own op class; a function of the drawn gaps)
     status, a, b = decomp.run_decompiler(c)
     if status != "ok":
         stt.count("decompiler_failed_(C06)")
